@@ -245,16 +245,19 @@ func ruleC08Latch(r *Run) {
 				if isLoadOfField(b.Y, m.lengthF) {
 					other = b.X
 				}
-				// the addend is the count returned by the underlying Write
+				// the addend is the count returned by the underlying Write (or ReadFrom / WriteString)
+				if cv, ok := other.(*ssa.Convert); ok {
+					other = cv.X
+				}
 				if ex, ok := other.(*ssa.Extract); ok && ex.Index == 0 {
 					if c, ok := ex.Tuple.(*ssa.Call); ok {
-						if mth, ok := m.underlying(c); ok && mth == "Write" {
+						if mth, ok := m.underlying(c); ok && (mth == "Write" || mth == "ReadFrom" || mth == "WriteString") {
 							okAdd = true
 						}
 					}
 				}
 			}
-			r.Check(rule, construct, w.InstrPos(st), okAdd, map[bool]string{true: "length += n with n returned by the underlying Write", false: "length updated with something other than the byte count accepted by the underlying writer"}[okAdd])
+			r.Check(rule, construct, w.InstrPos(st), okAdd, map[bool]string{true: "length += n with n returned by the underlying writer", false: "length updated with something other than the byte count accepted by the underlying writer"}[okAdd])
 		}
 	}
 }
@@ -781,6 +784,45 @@ func ruleC09Frame(r *Run) {
 	}
 }
 
+// C09-HOOKPATH: nothing between recover() and the hook call can panic again.
+func ruleC09HookPath(r *Run) {
+	w := r.W
+	rule := "C09-HOOKPATH"
+	r.Floor(rule, 2)
+	cg := w.BuildCG()
+	_, _, cl, _ := findFrame(w, cg)
+	if cl == nil {
+		r.Undecided(rule, "recover closure", token.NoPos, "no unique recovering closure")
+		return
+	}
+	// the closure and the module functions it calls statically (the hook itself is user code)
+	fns := []*ssa.Function{cl}
+	seen := map[*ssa.Function]bool{cl: true}
+	var walk func(f *ssa.Function, d int)
+	walk = func(f *ssa.Function, d int) {
+		if d > 3 {
+			return
+		}
+		for _, t := range cg.Edges[f] {
+			if !seen[t] && w.InModule(t) && t.Blocks != nil {
+				seen[t] = true
+				fns = append(fns, t)
+				walk(t, d+1)
+			}
+		}
+	}
+	walk(cl, 0)
+	p := newIdxProver(w)
+	n := 0
+	for _, f := range fns {
+		for _, ob := range p.collect(f) {
+			n++
+			r.Check(rule, ob.construct, w.InstrPos(ob.in), ob.ok, "in the recovered path ("+FuncName(f)+"): "+ob.kind+": "+ob.detail+map[bool]string{true: "", false: " — a second panic inside the deferred closure is not recovered: it escapes ServeHTTP and the hook never runs"}[ob.ok])
+		}
+	}
+	r.Exists(rule, "recovered path functions", cl.Pos(), len(fns) >= 2, fmt.Sprintf("%d function(s) on the recovered path examined, %d obligations", len(fns), n))
+}
+
 func ruleC09Only(r *Run) {
 	w := r.W
 	rule := "C09-ONLY"
@@ -891,6 +933,7 @@ func init() {
 			{"C09-FRAME", ruleC09Frame},
 			{"C08-END", ruleC08End("C08-END")},
 			{"C09-ONLY", ruleC09Only},
+			{"C09-HOOKPATH", ruleC09HookPath},
 			{"C09-INCHAIN", ruleC09InChain},
 			{"C03-POOL", ruleC03Pool},
 			{"C10-RESET", ruleC10Reset},
